@@ -158,7 +158,7 @@ def forward(ch, ctx, steps=5, twin=False, order=False, bits=False, fanout="pairs
         bits = [[ch.flag("e%d%d" % (i, j)) for j in range(3)] for i in range(3)]
     else:
         # at most two targets per task: none, one of the three, or one of the three pairs
-        opts = [[], [0], [1], [2], [0, 1], [0, 2], [1, 2]]
+        opts = [[], [0], [1], [2], [0, 1], [0, 2], [1, 2]] if fanout == "pairs" else [[], [0], [1], [2]]
         bits = []
         for i in range(3):
             o = opts[ch.pick("t%d" % i, len(opts))]
@@ -176,7 +176,7 @@ def forward(ch, ctx, steps=5, twin=False, order=False, bits=False, fanout="pairs
         c["c15_rejected"] = c.get("c15_rejected", 0) + 1
         return {"definition": defn, "result": "rejected"}
     c["c15_conducted"] = c.get("c15_conducted", 0) + 1
-    env = Env(ch, RawDef("fam", spec, {}), "C15", monitors=[], policy=Policy(steps=steps, bits=True, by_task=True))
+    env = Env(ch, RawDef("fam", spec, {}), "C15", monitors=[], policy=Policy(steps=steps, bits=bits, by_task=True, order=order))
     env.wf.tasks = {n: {} for n in NAMES}
     env.wf.transitions = lambda t: [("c0", [], [])]
     try:
@@ -200,12 +200,12 @@ def obligations(tier):
         o["antecedents"] = ["c15_mutants"]
         obs.append(o)
     if tier == "quick":
-        base = ob("C15", "e2c.forward", "vt.harness.C15:forward", {"steps": 4, "fanout": "pairs"}, timeout=1800)
+        base = ob("C15", "e2c.forward", "vt.harness.C15:forward", {"steps": 4, "fanout": "single"}, timeout=1800)
         base["antecedents"] = ["c15_conducted"]
-        for i in range(7):
+        for i in range(16):
             d = dict(base)
             d["id"] = "C15.e2c.forward#%d" % i
-            d["fixed"] = {"t0": i}
+            d["fixed"] = {"t0": i % 4, "t1": i // 4}
             obs.append(d)
     else:
         base = ob("C15", "e2c.forward", "vt.harness.C15:forward", {"steps": 6, "order": True, "bits": True, "fanout": "subset"}, timeout=7200)
